@@ -1,5 +1,6 @@
-(* Driver for the C13 model.  usage: modelrun_c13 [fixed] [stalefix] < cases > results
-   fixed = flag fix (fx), stalefix = one-shot stop only after the callback (fs)
+(* Driver for the C13 model.  usage: modelrun_c13 [fixed] [stalefix] [restartfix] < cases > results
+   fixed = flag fix (fx), stalefix = one-shot stop only after the callback (fs),
+   restartfix = ... and only if the handle still watches the message's signal (fr)
    case:  <cap> ; op op ... ; beh0 | beh1 | ...
    ops:   I<l>  S<h>,<sig>  O<h>,<sig>  T<h>  C<h>  K<sig>  R<l>            *)
 let nat_ s = nat_of_int (int_of_string s)
@@ -12,7 +13,7 @@ let parse_op (tok : string) : op =
   | 'O', [h; s] -> OStartOneshot (nat_ h, nat_ s)
   | 'T', [h] -> OStop (nat_ h)
   | 'C', [h] -> OClose (nat_ h)
-  | 'K', [s] -> ORaise (nat_ s)
+  | 'K', s :: _ -> ORaise (nat_ s)      (* K<sig>[,<thread>[,<mode>]]: the thread does not matter to the model *)
   | 'R', [l] -> ORun (nat_ l)
   | _ -> failwith ("bad op " ^ tok)
 
@@ -39,14 +40,14 @@ let print_event buf e =
        add "]");
   Buffer.add_char buf ' '
 
-let case (fx : bool) (fs : bool) (line : string) : string =
+let case (fx : bool) (fs : bool) (fr : bool) (line : string) : string =
   match String.split_on_char ';' line with
   | [cap; ops; behs] ->
       let ops = List.map parse_op (split_on ' ' ops) in
       let beha = Array.of_list (List.map (fun b -> List.map parse_op (split_on ' ' b))
                                   (String.split_on_char '|' behs)) in
       let beh k = let k = int_of_nat k in if k < Array.length beha then beha.(k) else [] in
-      let s = run fx fs beh (nat_of_int 100000) (init (nat_ (String.trim cap))) ops in
+      let s = run fx fs fr beh (nat_of_int 100000) (init (nat_ (String.trim cap))) ops in
       let buf = Buffer.create 1024 in
       List.iter (print_event buf) (trace_of s);
       Buffer.contents buf
@@ -54,5 +55,5 @@ let case (fx : bool) (fs : bool) (line : string) : string =
 
 let () =
   let args = Array.to_list Sys.argv in
-  let fx = List.mem "fixed" args and fs = List.mem "stalefix" args in
-  iter_lines (fun l -> print_string (case fx fs l); print_newline ())
+  let fx = List.mem "fixed" args and fs = List.mem "stalefix" args and fr = List.mem "restartfix" args in
+  iter_lines (fun l -> print_string (case fx fs fr l); print_newline ())
